@@ -1123,6 +1123,37 @@ def rule_r11(prog, res):
     res.floor('R11', 'class replacements in from_element', n, 1)
 
 
+def rule_r12(prog, res):
+    res.rule('R12', 'every byte string is decoded for a Unicode member (the '
+             'empty one included), and a leaf reader that cannot cope with '
+             'the kind of a document value answers with a validation fault '
+             '(C10-R5)')
+    i = prog.cls('spyne.protocol._inbase:InProtocolBase')
+    f = i.methods.get('unicode_from_bytes')
+    if f is None:
+        raise AnalysisError('InProtocolBase.unicode_from_bytes', 'not found')
+    decs = [c for c in calls_in(f.node) if call_name(c) == 'decode' or (
+        call_name(c) in ('text_type', 'str', 'unicode') and (
+            len(c.args) >= 2 or c.keywords))]
+    res.floor('R12', 'decode calls in unicode_from_bytes', len(decs), 1)
+    for c in decs:
+        st = c
+        while not isinstance(st, ast.stmt):
+            st = st._parent
+        guardspec.check(res, 'R12', f, st, 'the decoding of a byte string',
+                        allowed=[('isinstance(value, six.binary_type)', True),
+                                 ('cls_attrs.encoding is None', None),
+                                 ('self.string_encoding is None', None)],
+                        required=[('isinstance(value, six.binary_type)',
+                                   True)],
+                        key='unicode_from_bytes|decode')
+    from . import c10
+    from ..report import Result
+    res.share('R12', 'leaf readers of the dict documents turn a value of '
+              'the wrong kind into a validation fault (C10-R5)', 'C10',
+              c10.rule_r5, prog, Result)
+
+
 def run(prog, res, tier):
     guard_helpers(prog)
     res.run_rule(rule_r1, prog, res)
@@ -1136,6 +1167,7 @@ def run(prog, res, tier):
     res.run_rule(rule_r9, prog, res)
     res.run_rule(rule_r10, prog, res)
     res.run_rule(rule_r11, prog, res)
+    res.run_rule(rule_r12, prog, res)
 
 
 _X = 'spyne/protocol/xml.py'
@@ -1145,6 +1177,12 @@ _Y = 'spyne/protocol/yaml.py'
 _C = 'spyne/model/complex.py'
 
 MUTANTS = [
+    Mutant('empty-bytes-not-decoded', 'R12', 'fire',
+           'spyne/protocol/_inbase.py',
+           in_func('InProtocolBase.unicode_from_bytes',
+                   "if isinstance(value, six.binary_type):",
+                   "if isinstance(value, six.binary_type) and len(value) > 0:"),
+           'decode'),
     Mutant('xsi-type-retags-simple-types', 'R11', 'fire', _X,
            in_func('XmlDocument.from_element',
                    "                if issubclass(newclass, ComplexModelBase) "
